@@ -179,8 +179,15 @@ def rule_once(ctx: Ctx) -> List[Ob]:
                   and dotted(c.func) not in ("callable", "isinstance")]
         inloop = [c for c in calls if mm.cfg.node_of(c).loops or mm.in_loop(c)]
         ok = len(calls) == 1 and not inloop and not passed
+        missed = []
+        if ok:
+            # ... and on every path to every return (a callable stop criterion is resolved exactly once per run)
+            cn = mm.cfg.node_of(calls[0])
+            missed = [r.lineno for r in mm.returns if not mm.cfg.dominates(cn, mm.cfg.node_of(r))]
+            ok = not missed
         obs.append(ob("ONCE", f"{p}() has one call site outside every loop", mm.f, calls[0] if calls else mm.f.node, ok,
-                      f"{len(calls)} call site(s), {len(inloop)} inside a loop, handed to {len(passed)} other callee(s)",
+                      f"{len(calls)} call site(s), {len(inloop)} inside a loop, handed to {len(passed)} other callee(s)" +
+                      (f"; the return(s) at line(s) {missed} can be reached without the call: the callable is invoked 0 times on that path" if missed else ""),
                       construct=f"call sites of {p}: " + ", ".join(f"{short(c)}" for c in calls)))
     return obs
 
